@@ -188,6 +188,9 @@ type inScript struct {
 	desc      []string
 	cutInLen  bool
 	spanning  bool
+	// awaited (optional): the deliveries to wait for, by key. When set, only these count towards "everything
+	// expected has arrived" (scripts that also contain frames for which anything or nothing may be handed over).
+	awaited map[string]int
 }
 
 func rawFrame(rt *rapid.T, xid uint32, size int) []byte {
@@ -376,6 +379,13 @@ func runInbound(sc inScript, parser util.Parser, keyOf func(util.Message) string
 	failed := sc.failAfter >= 0
 	sawErr := false
 	nonNil := 0 // deliveries that are messages (a nil hand-over for a rejected frame is not one)
+	var awaited map[string]int
+	if sc.awaited != nil {
+		awaited = map[string]int{}
+		for k, v := range sc.awaited {
+			awaited[k] = v
+		}
+	}
 loop:
 	for {
 		// all expected deliveries (and, on failure, the error) seen: linger briefly for anything extra
@@ -394,7 +404,12 @@ loop:
 			d := delivered{m: m}
 			if !isNilMsg(m) {
 				d.key, d.dump = keyOf(m), obs.Deep(m)
-				nonNil++
+				if awaited == nil {
+					nonNil++
+				} else if awaited[d.key] > 0 {
+					awaited[d.key]--
+					nonNil++
+				}
 			}
 			got = append(got, d)
 		case e := <-ms.Error:
